@@ -17,10 +17,13 @@ LINK_HREF_INLINE_RE = re.compile(
     r"(?:" + PREVENT_BACKSLASH + r"\)))"
 )
 
+# a backslash is either part of an escape, or literal text when no other
+# reading is possible (before the closing quote or a non-punctuation char);
+# keeping the alternatives disjoint avoids exponential backtracking
 LINK_TITLE_RE = re.compile(
     r"[ \t\n]+("
-    r'"(?:\\' + PUNCTUATION + r'|[^"\x00])*"|'  # "title"
-    r"'(?:\\" + PUNCTUATION + r"|[^'\x00])*'"  # 'title'
+    r'"(?:\\' + PUNCTUATION + r'|[^"\\\x00]|\\(?="|(?!' + PUNCTUATION + r')))*"|'  # "title"
+    r"'(?:\\" + PUNCTUATION + r"|[^'\\\x00]|\\(?='|(?!" + PUNCTUATION + r")))*'"  # 'title'
     r")"
 )
 PAREN_END_RE = re.compile(r"\s*\)")
